@@ -444,15 +444,21 @@ def rule_f(rep, idx, pm, tm) -> None:
 		raise AnalysisError('data/i18n.yml is not a mapping')
 	n = tm.nodes
 	for name in sorted(tm.asts):
-		for callee, node in tm.calls(name):
+		i18n_calls = [(c_.node.name, c_) for c_ in tm.flat(name).find_all(n.Call) if isinstance(c_.node, n.Name)]
+		combos = []
+		for callee, node in i18n_calls:
 			if callee != 'i18n':
 				continue
 			where = (tm.relpath(name), getattr(node, 'lineno', 1))
-			args = node.args
-			if len(args) != 2 or not all(isinstance(a, n.Const) and isinstance(a.value, str) for a in args):
-				r.undecided(f'{name}:i18n(?)', where, 'i18n call with non-constant arguments')
+			if len(node.args) != 2:
+				r.skip(f'{name}:i18n(?)', where, 'i18n call without exactly two arguments')
 				continue
-			mod_key, local = args[0].value, args[1].value
+			alts0, alts1 = tm.alternatives(node.args[0]), tm.alternatives(node.args[1])
+			if not all(isinstance(a, n.Const) and isinstance(a.value, str) for a in alts0 + alts1):
+				r.skip(f'{name}:i18n(?)', where, 'i18n call with non-constant arguments')
+				continue
+			combos.extend((where, a0.value, a1.value) for a0 in alts0 for a1 in alts1)
+		for where, mod_key, local in dict.fromkeys(combos):
 			alias_key = f'aliases.{mod_key}'
 			key = f'{name}:i18n({mod_key!r}, {local!r})'
 			if alias_key not in data:
